@@ -1,0 +1,15 @@
+//go:build !verif
+
+// Package verifhook holds observation points for the runtime-verification
+// harness. Without the "verif" build tag every function is empty and inlined
+// away.
+package verifhook
+
+// FS is called in front of a filesystem mutation.
+func FS(op string, paths ...string) {}
+
+// Point marks a position between two critical sections.
+func Point(name string) {}
+
+// Sema reports an acquire or release of a scheduler semaphore.
+func Sema(sem any, event string, n int64) {}
